@@ -87,7 +87,8 @@ RandProg(n) == P1(<<SInfer("n", ValE(n)), SFor("", "num", <<Num(5)>>,
                               EBin("==", EVar("r", T_num), ECallB("floor", <<EVar("r", T_num)>>))>>)>>)>>)
 Rand1Prog == P1(<<SFor("", "num", <<Num(5)>>, <<SInfer("r", ECallB("rand1", <<>>)),
                      Pr(<<EBin(">=", EVar("r", T_num), Num(0)), EBin("<", EVar("r", T_num), Num(1))>>)>>)>>)
-RandProgs == {RandProg(n) : n \in {I(1), I(2), I(5), I(1000), I(2147483647), I(0), NumNeg(I(1)), NumNeg(Fin(1, 1)), NaN, NInf, Fin(5, 1)}}
+RandProgs == {RandProg(n) : n \in {I(1), I(2), I(5), I(1000), I(2147483647), I(0), NumNeg(I(1)), NumNeg(Fin(1, 1)), NaN, NInf, Fin(5, 1),
+                                    Fin(1, 1), Fin(1, 2), Fin(3, 2), Fin(1, 8), Fin(3, 1), Inf, Big}}
              \cup {Rand1Prog}
 
 \* conversions and the err / errmsg protocol: sequences of up to 3 conversions
